@@ -1080,6 +1080,10 @@ class StyleProperties:
 
           actual_values.append(value)
 
+        if len(actual_values) == 0:
+          # an empty list of shadows is no shadow
+          actual_values = [styles.SpecialValues.none.value]
+
       elif model_value == styles.SpecialValues.none:
 
         actual_values = [model_value.value]
